@@ -8,7 +8,7 @@ Has(ev, f) == f \in DOMAIN ev
 
 \* the active set the manager reports after the operation, as rules
 ObsActive(ev) ==
-    LET cand == OpSpec(ev).given \cup active[ev.fam] IN
+    LET cand == ever[ev.fam] \cup OpSpec(ev).given \cup active[ev.fam] IN
     {r \in cand : r.id \in SeqToSet(ev.after.all)}
 
 \* the listing is consistent: no unknown ids, and the per-resource listings agree with the global one
